@@ -103,6 +103,8 @@ def main(tier="quick", only=None, jobs=4, summary=None, tag="selftest"):
     if only:
         muts = [m for m in muts if m["id"] in only or
                 any(pr in only for pr in (m["prop"] if isinstance(m["prop"], list) else [m["prop"]]))]
+    if os.environ.get("GSA_SELFTEST_NO_PATCH"):      # development: text mutants only
+        muts = [m for m in muts if "patch" not in m]
     base = os.environ.get("TMPDIR", "/tmp")
     roots = [os.path.join(base, "gsa-%s-%d" % (tag, i)) for i in range(jobs)]
     t0 = time.time()
